@@ -207,7 +207,7 @@ public:
    /// @since  1.34.1, 14.01.2020
    bool hasIntersection( const ContainerAdapter& other) const
    {
-      return common::hasIntersection( mDestCont, other.mDestCont);
+      return common::hasIntersectionUnsorted( mDestCont, other.mDestCont);
    } // ContainerAdapter< std::deque< T>>::hasIntersection
 
    /// Returns a string with the values from the container.
@@ -323,7 +323,7 @@ public:
    /// @since  1.34.1, 14.01.2020
    bool hasIntersection( const ContainerAdapter& other) const
    {
-      return common::hasIntersection( mDestCont, other.mDestCont);
+      return common::hasIntersectionUnsorted( mDestCont, other.mDestCont);
    } // ContainerAdapter< std::forward_list< T>>::hasIntersection
 
    /// Returns a string with the values from the container.
@@ -447,7 +447,7 @@ public:
    /// @since  1.34.1, 14.01.2020
    bool hasIntersection( const ContainerAdapter& other) const
    {
-      return common::hasIntersection( mDestCont, other.mDestCont);
+      return common::hasIntersectionUnsorted( mDestCont, other.mDestCont);
    } // ContainerAdapter< std::list< T>>::hasIntersection
 
    /// Returns a string with the values from the container.
@@ -1176,7 +1176,7 @@ public:
    /// @since  1.34.1, 14.01.2020
    bool hasIntersection( const ContainerAdapter& other) const
    {
-      return common::hasIntersection( mDestCont, other.mDestCont);
+      return common::hasIntersectionUnsorted( mDestCont, other.mDestCont);
    } // ContainerAdapter< std::unordered_multiset< T>>::hasIntersection
 
    /// Returns a string with the values from the container.
@@ -1295,7 +1295,7 @@ public:
    /// @since  1.34.1, 14.01.2020
    bool hasIntersection( const ContainerAdapter& other) const
    {
-      return common::hasIntersection( mDestCont, other.mDestCont);
+      return common::hasIntersectionUnsorted( mDestCont, other.mDestCont);
    } // ContainerAdapter< std::unordered_set< T>>::hasIntersection
 
    /// Returns a string with the values from the container.
@@ -1425,7 +1425,7 @@ public:
    /// @since  1.34.1, 14.01.2020
    bool hasIntersection( const ContainerAdapter& other) const
    {
-      return common::hasIntersection( mDestCont, other.mDestCont);
+      return common::hasIntersectionUnsorted( mDestCont, other.mDestCont);
    } // ContainerAdapter< std::vector< T>>::hasIntersection
 
    /// Returns a string with the values from the container.
